@@ -301,6 +301,9 @@ def run(ctx):
     ctx.sample({"op": "s[a to b]", "s": "abcd", "a": 0, "b": -7, "result": ""})
     ctx.sample({"op": "find_last", "s": "abc", "t": "", "result": 3})
     ctx.sample({"op": "insert_at", "l": ["a", "b", "c"], "i": -5, "result": "unchanged"})
+    # results of non-mutating operations are independent of their inputs (strings included); parameter defaults are per call
+    from harness import progcheck as _pc
+    _pc.run_templates(ctx, common.independence_cases(), "result-independence")
     common.replay_known(ctx)
 
 
